@@ -97,11 +97,10 @@ class Codec:
                         )
                     seq_no = int(msg[FTag.MsgSeqNum])
                 else:
-                    seq_no = session.allocate_next_num_out()
+                    # a new number, taken below once the message is known to encode
+                    seq_no = None
 
-        body.append("%s=%s" % (FTag.MsgSeqNum, seq_no))
-        body.append("%s=%s" % (FTag.SendingTime, self.current_datetime()))
-
+        fields = []
         for t in msg.tags:
             if t in {
                 FTag.MsgSeqNum,
@@ -110,7 +109,14 @@ class Codec:
                 FTag.TargetCompID,
             }:
                 continue
-            self._addTag(body, t, msg)
+            self._addTag(fields, t, msg)
+
+        if seq_no is None:
+            seq_no = session.allocate_next_num_out()
+
+        body.append("%s=%s" % (FTag.MsgSeqNum, seq_no))
+        body.append("%s=%s" % (FTag.SendingTime, self.current_datetime()))
+        body.extend(fields)
 
         # Enable easy change when debugging
         SEP = self.SOH
